@@ -2,7 +2,7 @@
    Only theorem statements live here; each is closed by a lemma of ReplayDetector/*Proofs.v. *)
 From Tx Require Import Common.Base ReplayDetector.Model ReplayDetector.Spec
   ReplayDetector.PlainProofs ReplayDetector.WrapProofs.
-From Tx Require ReplayDetector.Words.
+From Tx Require ReplayDetector.Words ReplayDetector.Deferred.
 
 (* Plain detector, every window size and every maximum (uint64), every history:
    if operation i checked [seq] successfully and invoked the callback, every later check of
@@ -18,6 +18,24 @@ Proof.
   exact (ps_no_replay_idx c h [] i j seq inv_j oi oj Hij Hi Hoi Hok Hj Hoj).
 Qed.
 Print Assumptions C04_plain_no_replay.
+
+(* Plain detector, every order of calls: the callback of a successful Check may be kept and invoked later - after other checks and
+   accepts, in any order, more than once (events PCheck / PAccept of ReplayDetector/Deferred.v; an accept runs on the state of the
+   moment it is invoked, as the closure in the code does). Once the callback of [seq] has run, every later Check of [seq] is
+   refused. *)
+Theorem C04_plain_no_replay_any_order : forall c h i j seq,
+  in_u64 (window c) -> Deferred.pevs_in_range h -> (i < j)%nat ->
+  nth_error h i = Some (Deferred.PAccept seq) -> nth_error h j = Some (Deferred.PCheck seq) ->
+  nth_error (Deferred.pe_run c p_init h) j = Some (Some false).
+Proof. exact Deferred.pe_no_replay. Qed.
+Print Assumptions C04_plain_no_replay_any_order.
+
+(* two checks pending at once, accepted in the other order, one of them twice *)
+Example C04_any_order_example :
+  Deferred.pe_run {| window := 64; maxSeq := 1000 |} p_init
+    [Deferred.PCheck 5; Deferred.PCheck 7; Deferred.PAccept 7; Deferred.PAccept 5; Deferred.PAccept 7; Deferred.PCheck 5; Deferred.PCheck 7; Deferred.PCheck 6]
+  = [Some true; Some true; None; None; None; Some false; Some false; Some true].
+Proof. vm_compute. reflexivity. Qed.
 
 (* Wrapping detector, every window size below 2^62 and every maximum in 2 .. 2^62-1, every
    history: [w_safe] walks the history keeping the list g of accepted numbers that the
